@@ -7,7 +7,11 @@
 (* or which thread does what.                                              *)
 (*                                                                         *)
 (* Events (times are the scheduler's own clock, in ticks):                 *)
-(*   ArmBegin(op, due)   start() of a schedule_at/after operation entered  *)
+(*   Reset(rt, slack)    new execution; rt = 1: free-running real-time     *)
+(*                       recording, slack = tolerance in clock units       *)
+(*   ArmBegin(op, due, sync)  start() of a schedule_at/after operation     *)
+(*                       entered; sync = 0: remote start of an io context  *)
+(*                       (insertion into the timer set happens later, FIFO)*)
 (*   ArmEnd(op)          start() returned                                  *)
 (*   StopBegin(op) / StopEnd(op)   request_stop() on op's stop source      *)
 (*   Fire(op, ch, now)   completion delivered (ch = value|done|error),     *)
@@ -19,6 +23,7 @@
 (*   NeverEarly   value => now >= due                                      *)
 (*   DueOrder     a value completion of X needs every Y in mustPrec[X] to  *)
 (*                have completed (or to have been cancelled), where Y is   *)
+(*                (unless Y is an asynchronous and X a synchronous start)  *)
 (*                put into mustPrec[X] when Y's submission *ended* before  *)
 (*                X's began with due[Y] <= due[X] (ties: submission order) *)
 (*                or ended while X was submitted, uncompleted and not yet  *)
@@ -32,12 +37,16 @@
 (***************************************************************************)
 EXTENDS Integers, Sequences, FiniteSets, TLC, TraceIO
 Ops == 1..6
-VARIABLES l, mnow, armB, armE, due, stopB, stopE, fired, mustPrec, ended
-vars == <<l, mnow, armB, armE, due, stopB, stopE, fired, mustPrec, ended>>
+VARIABLES l, mnow, armB, armE, due, stopB, stopE, fired, mustPrec, ended,
+          rt, slack,    \* Reset: rt = 1 for free-running real-time recordings (io contexts), slack in clock units
+          sync,         \* [op -> BOOLEAN] the submission is inserted when start() returns (not a remote start of an io context)
+          stopEndNow    \* [op -> clock at StopEnd]
+vars == <<l, mnow, armB, armE, due, stopB, stopE, fired, mustPrec, ended, rt, slack, sync, stopEndNow>>
 F == [o \in Ops |-> FALSE]
 Fresh == /\ armB = F /\ armE = F /\ due = [o \in Ops |-> 0] /\ stopB = F /\ stopE = F
          /\ fired = F /\ mustPrec = [o \in Ops |-> {}] /\ ended = FALSE
-Init == l = 1 /\ mnow = 0 /\ Fresh /\ TrackInit
+         /\ sync = [o \in Ops |-> TRUE] /\ stopEndNow = [o \in Ops |-> 0]
+Init == l = 1 /\ mnow = 0 /\ rt = 0 /\ slack = 0 /\ Fresh /\ TrackInit
 E == Log[l]
 Is(e) == l <= Len(Log) /\ E.e = e /\ l' = l + 1
 AllFired == \A o \in Ops : armB[o] => fired[o]
@@ -46,40 +55,46 @@ Reset == /\ Is("Reset") /\ Closed
          /\ mnow' = E.now
          /\ armB' = F /\ armE' = F /\ due' = [o \in Ops |-> 0] /\ stopB' = F /\ stopE' = F
          /\ fired' = F /\ mustPrec' = [o \in Ops |-> {}] /\ ended' = FALSE
+         /\ rt' = E.rt /\ slack' = E.slack /\ sync' = [o \in Ops |-> TRUE] /\ stopEndNow' = [o \in Ops |-> 0]
 ArmBegin == /\ Is("ArmBegin") /\ ~ended /\ ~armB[E.op]
             /\ armB' = [armB EXCEPT ![E.op] = TRUE] /\ due' = [due EXCEPT ![E.op] = E.due]
-            /\ mustPrec' = [mustPrec EXCEPT ![E.op] = {y \in Ops : armE[y] /\ due[y] <= E.due}]
-            /\ UNCHANGED <<mnow, armE, stopB, stopE, fired, ended>>
+            /\ sync' = [sync EXCEPT ![E.op] = (E.sync = 1)]
+            /\ mustPrec' = [mustPrec EXCEPT ![E.op] = {y \in Ops : armE[y] /\ due[y] <= E.due /\ (sync[y] \/ E.sync = 0)}]
+            /\ UNCHANGED <<mnow, armE, stopB, stopE, fired, ended, rt, slack, stopEndNow>>
 ArmEnd == /\ Is("ArmEnd") /\ armB[E.op] /\ ~armE[E.op]
           /\ armE' = [armE EXCEPT ![E.op] = TRUE]
           /\ mustPrec' = [x \in Ops |->
-                IF x # E.op /\ armB[x] /\ ~fired[x] /\ mnow < due[x] /\ due[E.op] < due[x]
+                IF x # E.op /\ armB[x] /\ ~fired[x] /\ E.now + slack < due[x] /\ due[E.op] < due[x]
                 THEN mustPrec[x] \cup {E.op} ELSE mustPrec[x]]
-          /\ UNCHANGED <<mnow, armB, due, stopB, stopE, fired, ended>>
+          /\ UNCHANGED <<mnow, armB, due, stopB, stopE, fired, ended, rt, slack, sync, stopEndNow>>
 StopBegin == /\ Is("StopBegin") /\ stopB' = [stopB EXCEPT ![E.op] = TRUE]
-             /\ UNCHANGED <<mnow, armB, armE, due, stopE, fired, mustPrec, ended>>
+             /\ UNCHANGED <<mnow, armB, armE, due, stopE, fired, mustPrec, ended, rt, slack, sync, stopEndNow>>
 StopEnd == /\ Is("StopEnd") /\ stopB[E.op] /\ stopE' = [stopE EXCEPT ![E.op] = TRUE]
-           /\ UNCHANGED <<mnow, armB, armE, due, stopB, fired, mustPrec, ended>>
+           /\ stopEndNow' = [stopEndNow EXCEPT ![E.op] = E.now]
+           /\ UNCHANGED <<mnow, armB, armE, due, stopB, fired, mustPrec, ended, rt, slack, sync>>
 Fire == /\ Is("Fire") /\ ~ended
         /\ armB[E.op] /\ ~fired[E.op]                                   \* started, and at most once
         /\ E.ch \in {"value", "done"}
         /\ (E.ch = "value") =>
              /\ E.now >= due[E.op]                                      \* NeverEarly
-             /\ ~stopE[E.op]                                            \* a stop request that had returned => done
+             \* a stop request that had returned => done.  Free-running recordings cannot order the library's
+             \* stop_requested() check against StopEnd by log position: there only a request that returned
+             \* (by the clock) before the due time is decisive
+             /\ ~stopE[E.op] \/ (rt = 1 /\ stopEndNow[E.op] + slack >= due[E.op])
              /\ \A y \in mustPrec[E.op] : fired[y] \/ stopB[y]          \* DueOrder
         /\ (E.ch = "done") => stopB[E.op]
         /\ fired' = [fired EXCEPT ![E.op] = TRUE]
-        /\ UNCHANGED <<mnow, armB, armE, due, stopB, stopE, mustPrec, ended>>
+        /\ UNCHANGED <<mnow, armB, armE, due, stopB, stopE, mustPrec, ended, rt, slack, sync, stopEndNow>>
 Tick == /\ Is("Tick") /\ ~ended
         /\ E.now > mnow
         /\ \A o \in Ops : (armB[o] /\ stopB[o]) => fired[o]             \* CancelPrompt
         /\ mnow' = E.now
-        /\ UNCHANGED <<armB, armE, due, stopB, stopE, fired, mustPrec, ended>>
+        /\ UNCHANGED <<armB, armE, due, stopB, stopE, fired, mustPrec, ended, rt, slack, sync, stopEndNow>>
 End == /\ Is("End") /\ ~ended
        /\ AllFired /\ E.pending = 0                                     \* ExactlyOnce (no lost completion)
        /\ \A o \in Ops : armB[o] => armE[o]
        /\ ended' = TRUE
-       /\ UNCHANGED <<mnow, armB, armE, due, stopB, stopE, fired, mustPrec>>
+       /\ UNCHANGED <<mnow, armB, armE, due, stopB, stopE, fired, mustPrec, rt, slack, sync, stopEndNow>>
 Next == Reset \/ ArmBegin \/ ArmEnd \/ StopBegin \/ StopEnd \/ Fire \/ Tick \/ End
 Spec == Init /\ [][Next]_vars
 Track == TrackAt(l, Closed)
